@@ -195,7 +195,10 @@ func (db *DB) Delete(
 		)
 	}
 
-	persist := db.idx.indexPersist.prepare(startDomain)
+	// Pointers before persistHead may not be on disk yet (commits whose index persist
+	// was deferred), so the rewrite must not start after it.
+	db.idx.persistHead = min(db.idx.persistHead, startDomain)
+	persist := db.idx.indexPersist.prepare(db.idx.persistHead)
 	// We choose to keep the mutex locked while persisting to index.
 	return span.Error(persist())
 }
